@@ -193,13 +193,37 @@ def make_cases(rng, n, tier):
                 cs["setups"].append(setup(buf, cur, smode))
                 sess.append(SETUP_KEY)
                 pool = EDIT_VI if smode == "vi-command" else EDIT_EMACS
-                hints = HINT_VI if smode == "vi-command" else HINT_EMACS if smode == "emacs" else []
-                if W < 40 or cs["h"] < 24:
-                    hints = []      # (hints are examined where they fit on a row of their own and the screen does not scroll under them)
                 for _ in range(rng.randint(0, 5)):
-                    sess.append(keys(rng.choice(hints) if hints and rng.random() < 0.25 else rng.choice(pool)))
+                    sess.append(keys(rng.choice(pool)))
             end = rng.choice(["accept", "accept", "interrupt"])
             sess.append(keys(b"\r" if end == "accept" else b"\x03"))
+            cs["sessions"].append(sess)
+        cases.append(cs)
+    return cases
+
+
+def hint_cases(rng, n):
+    """a family of its own: keys that make the library show a hint BELOW the input (numeric argument, register, macro being
+    recorded, macro run) or start visual mode, on terminals where the hint fits on one row and nothing scrolls (80x24), with
+    buffers of one to three short rows, several calls per terminal so that the input is not on the top row"""
+    cases = []
+    for ci in range(n):
+        mode = rng.choice(["emacs", "vi"])
+        prompt = rng.choice(["> ", "$ ", "top line\n> "])
+        cs = {"id": "c04h-%d" % ci, "inputrc": ("set editing-mode vi\n" if mode == "vi" else ""), "w": 80, "h": 24,
+              "prompt": prompt, "screen": True, "wrap": "none", "setups": [], "sessions": []}
+        for si in range(3):
+            sess = []
+            for xi in range(rng.randint(1, 3)):
+                buf = "\n".join(gen_text(rng, rng.randint(0, 60), "ascii") for _ in range(rng.choice([1, 1, 2])))
+                smode = "emacs" if mode == "emacs" else "vi-command"
+                cur = rng.randint(0, max(0, len(buf) - 1))
+                cs["setups"].append(setup(buf, cur, smode))
+                sess.append(SETUP_KEY)
+                pool, hints = (EDIT_VI, HINT_VI) if smode == "vi-command" else (EDIT_EMACS, HINT_EMACS)
+                for _ in range(rng.randint(2, 7)):
+                    sess.append(keys(rng.choice(hints) if rng.random() < 0.5 else rng.choice([k for k in pool if k != b"\x0c"])))
+            sess.append(keys(b"\r"))
             cs["sessions"].append(sess)
         cases.append(cs)
     return cases
@@ -265,12 +289,13 @@ def run(rep, tier, seed):
     wd = workdir("c04")
     model_check(rep, tier, os.path.join(wd, "mc"))
     cases = make_cases(rng, 150 if tier == "quick" else 2500, tier)
+    cases += hint_cases(random.Random(seed * 31 + 5), 30 if tier == "quick" else 500)
     log("C04: %d cases, %d Readline calls" % (len(cases), sum(len(c["sessions"]) for c in cases)))
     check(rep, cases, wd)
     rep.rule = ("seeded: widths {8,12,20,40,80} x heights {12,24,40} x prompts {none, plain, wide, two-line, coloured, row-filling} x buffers of "
                 "1-4 lines whose display widths are k*W - prompt + {-2..2} (k = 0..3) or random, over {ASCII, CJK, emoji, combining, tab, "
-                "blank} glyphs x cursor {end, start, anywhere} x emacs / vi-insert / vi-command x 0-5 editing keys after each set-up (one in four a key that shows a hint below the input: numeric argument, register, macro recording / run, or starts visual mode), "
-                "several set-ups (longer and shorter than the preceding frame) per call, 3 calls per terminal (scrolling included); "
+                "blank} glyphs x cursor {end, start, anywhere} x emacs / vi-insert / vi-command x 0-5 editing keys after each set-up, "
+                "several set-ups (longer and shorter than the preceding frame) per call, 3 calls per terminal (scrolling included); plus a family on 80x24 terminals with keys that show a hint below the input (numeric argument, register, macro recorded / run) or start visual mode; "
                 "non-trivial = distinct (width, prompt, glyph sequence, cursor) frames compared")
     rep.explanation = ("every output token of the real library is interpreted by Terminal.tla; at each wait TermTrace requires the cursor on "
                        "the cell Layout.tla assigns to the buffer cursor, exactly the expected text cells on the frame's rows, and blank rows "
